@@ -42,8 +42,6 @@ Section MainLoop.
   Lemma edit_insert_kh ch n : keeps_hist (edit_insert U cfg ch n).
   Proof. unfold edit_insert, lb_changes, refresh_line, refresh, update_hint. kh_auto. Qed.
 
-  Hypothesis no_helper : c_has_helper cfg = false.
-
   Section Loop.
   Variable H : list str.          (* the stored history: fixed during a read (C07) *)
 
@@ -97,8 +95,9 @@ Section MainLoop.
     apply rp_of_np; [apply np_edit_insert|apply edit_insert_kna|apply edit_insert_kh].
   Qed.
 
-  (* what the loop needs from the incremental search *)
+  (* what the loop needs from the two sub-loops *)
   Hypothesis search_rp : forall f, rp (incremental_search U cfg f).
+  Hypothesis complete_rp : c_has_helper cfg = true -> forall f, rp (complete_line U cfg f).
 
   (* THE LOOP: from any state with the invariant, for every amount of fuel, no panic *)
   Theorem main_loop_rp fuel : rp (main_loop U cfg fuel).
@@ -112,7 +111,7 @@ Section MainLoop.
                              | CComplete => if c_has_helper cfg then complete_line U cfg f else eret (Some c0)
                              | _ => eret (Some c0)
                              end).
-    { rewrite no_helper. destruct c0; apply rp_ret. }
+    { destruct c0; try apply rp_ret. destruct (c_has_helper cfg) eqn:Eh; [apply complete_rp; reflexivity|apply rp_ret]. }
     intros oc. destruct oc as [c1|]; [|exact IH].
     apply rp_bind with (m := match c1 with
                              | CReverseSearchHistory => incremental_search U cfg f
@@ -152,9 +151,9 @@ Section MainLoop.
 
   (* with an empty history the search returns at once: both modes *)
   Theorem read_never_panics prompt initial kr inp :
-    kr_inv kr -> fst (read_line U cfg prompt initial [] kr inp) <> OPanic.
+    c_has_helper cfg = false -> kr_inv kr -> fst (read_line U cfg prompt initial [] kr inp) <> OPanic.
   Proof.
-    apply read_rp. intros f s HP. unfold incremental_search, ebind, eget. destruct HP as [HR He]. unfold hlen_e. rewrite He. cbn.
+    intros no_helper. apply read_rp; [|intros Hx; congruence]. intros f s HP. unfold incremental_search, ebind, eget. destruct HP as [HR He]. unfold hlen_e. rewrite He. cbn.
     split; [exact HR|exact He].
   Qed.
 
@@ -399,9 +398,278 @@ Section MainLoop.
       - exists []. unfold cs_notify_all. cbn [fold_left e_changes]. rewrite Eb. reflexivity.
     Qed.
 
-    (* A WHOLE READ IN EMACS MODE, any history *)
+    (* ---------- completion (the completer keeps its contract) ---------- *)
+
+    Lemma ebind_assoc {A B C} (m : E A) (f : A -> E B) (g : B -> E C) s :
+      ebind (ebind m f) g s = ebind m (fun a => ebind (f a) g) s.
+    Proof. unfold ebind. destruct (m s); reflexivity. Qed.
+
+    (* what reading a command inside a sub-loop guarantees *)
+    Lemma next_cmd_facts f sea s :
+      P H s ->
+      match next_cmd U cfg f sea s with
+      | EPanic => False
+      | EOk c s' => P H s' /\ e_line s' = e_line s
+                    /\ match c with CReplace _ _ => True | _ => e_changes s' = e_changes s end
+      | _ => True
+      end.
+    Proof.
+      intros HP. pose proof HP as [HR Hh].
+      pose proof (kq_next_cmd U cfg f sea s HR) as Hk.
+      destruct (next_cmd U cfg f sea s) as [c s'| | |] eqn:E; auto.
+      destruct Hk as [HR' [L _]]. split; [split; [exact HR'|rewrite (kh_next_cmd U cfg f sea _ _ _ E); exact Hh]|].
+      split; [exact L|]. exact (nc_changes f sea s c s' E).
+    Qed.
+
+    Section Circular.
+      Variable c0 : changeset.
+      Variable t0 : str.
+      Variable p0 start : nat.
+      Variable cands : list str.
+      Hypothesis Hv0 : valid (cs_undos c0) t0.
+      Hypothesis Hbd0 : bd t0 p0.
+      Hypothesis Hst0 : bd t0 start /\ start <= p0.
+
+      (* the loop invariant: the search-loop one, and the replaced span still starts on a boundary before the cursor *)
+      Definition LInv (s : est) : Prop :=
+        SInv c0 s /\ bd (buf (e_line s)) start /\ start <= pos (e_line s).
+      Definition lp {A} (m : E A) : Prop :=
+        forall s, LInv s -> match m s with EPanic => False | EOk _ s' => P H s' | _ => True end.
+
+      (* showing candidate i, or (i = number of candidates) the original line again *)
+      Lemma show_candidate_ok i s :
+        LInv s ->
+        match show_candidate U start cands (t0, p0) i s with
+        | EPanic => False
+        | EOk _ s' => LInv s' /\ (length cands <= i -> buf (e_line s') = t0)
+        | _ => True
+        end.
+      Proof.
+        intros [HS [Hbs Hle]]. pose proof HS as [[[HJ HN] Hh] [es Hes]]. pose proof HJ as [Hw [Hi [Hk [Hsv Hg]]]].
+        unfold show_candidate. destruct (Nat.ltb i (length cands)) eqn:Ei.
+        - apply Nat.ltb_lt in Ei. destruct (nth_error cands i) as [c|] eqn:En.
+          2:{ cbn. split; [split; [exact HS|split; assumption]|lia]. }
+          unfold completer_update. unfold ebind at 1. cbn [eget].
+          destruct (bd2 _ _ _ Hbs Hw Hle) as [l [m [r [Hb [Hs1 Hp1]]]]].
+          assert (Hrep : replace start (pos (e_line s)) c (e_line s)
+                         = Ok (tt, mkLb (l ++ c ++ r) (start + blen c) (cap (e_line s)) (grow (e_line s)), [EReplace start m c])).
+          { unfold replace, replace_range. rewrite Hb, Hs1, Hp1, slice_app. unfold str_drain.
+            replace (Nat.ltb (blen l + blen m) (blen l)) with false by (symmetry; apply Nat.ltb_ge; lia).
+            rewrite bsplit_app. replace (blen l + blen m - blen l) with (blen m) by lia. rewrite bsplit_app.
+            unfold str_insert. rewrite bsplit_app. reflexivity. }
+          destruct (lb_changes_spec (replace start (pos (e_line s)) c) s tt _ _ Hrep) as [s1 [H1 [L [C [K [S [Hh1 N1]]]]]]].
+          rewrite H1.
+          assert (Hw' : wf (mkLb (l ++ c ++ r) (start + blen c) (cap (e_line s)) (grow (e_line s)))).
+          { exists (l ++ c), r. cbn. split; [rewrite <- app_assoc; reflexivity|rewrite blen_app, Hs1; reflexivity]. }
+          pose proof (np_lb_changes_at U (replace start (pos (e_line s)) c) s HJ
+                        (ex_intro _ tt (ex_intro _ _ (ex_intro _ _ (conj Hrep Hw')))) (good_replace _ _ _) (kg_replace _ _ _)) as Hn.
+          rewrite H1 in Hn. cbn in Hn.
+          split; [|intros Hx; lia].
+          split; [split; [split; [split; [exact Hn|unfold Nv; rewrite N1; exact HN]|rewrite Hh1; exact Hh]|]|].
+          + exists (es ++ [EReplace start m c]). rewrite C, Hes. unfold cs_notify_all. rewrite fold_left_app. reflexivity.
+          + rewrite L. cbn. split; [rewrite Hs1; apply bd_mid|lia].
+        - apply Nat.ltb_ge in Ei. cbn [fst snd].
+          destruct (RecallProofs.update_spec (e_line s) t0 p0 Hg (bd_le _ _ Hbd0)) as [ev Hu].
+          destruct (show_hit c0 t0 p0 s HS Hbd0) as [s1 [H1 HS1]].
+          destruct (lb_changes_spec (update t0 p0) s tt _ ev Hu) as [s1' [H1' [L _]]]. rewrite H1 in H1'. inversion H1'; subst s1'.
+          rewrite H1. split; [split; [exact HS1|rewrite L; cbn; exact Hst0]|]. intros _. rewrite L. reflexivity.
+      Qed.
+
+      Section CBranch.
+        Variable rec : nat -> E (option cmd).
+        Hypothesis rec_lp : forall j, lp (rec j).
+
+        Lemma beep_rec (b : bool) j s :
+          P H s -> bd (buf (e_line s)) start /\ start <= pos (e_line s) ->
+          (exists es, e_changes s = cs_notify_all U (useg U) (fst (cs_begin c0)) es) ->
+          match ((if b then beep else eret tt) ;;; rec j) s with EPanic => False | EOk _ s' => P H s' | _ => True end.
+        Proof.
+          intros HP Hline [es Hes]. unfold ebind at 1. destruct b.
+          - pose proof (q5_beep s) as Hq. destruct (beep s) as [u s1| | |] eqn:Eb; auto.
+            destruct Hq as [[L1 [C1 [K1 S1]]] N1]. apply rec_lp.
+            assert (HP1 : P H s1).
+            { pose proof (rp_of_kq H _ (kq_of_q5 cfg _ q5_beep) ltac:(unfold beep; kh_auto) s HP) as Hx. rewrite Eb in Hx. exact Hx. }
+            split; [split; [exact HP1|exists es; rewrite C1; exact Hes]|rewrite L1; exact Hline].
+          - cbn [eret]. apply rec_lp. split; [split; [exact HP|exists es; exact Hes]|exact Hline].
+        Qed.
+
+        Lemma circular_branch_ok i c s :
+          P H s -> bd (buf (e_line s)) start /\ start <= pos (e_line s) ->
+          (length cands <= i -> buf (e_line s) = t0) ->
+          match c with CReplace _ _ => True | _ => exists es, e_changes s = cs_notify_all U (useg U) (fst (cs_begin c0)) es end ->
+          match circular_branch U cfg rec cands (t0, p0) (snd (cs_begin c0)) i c s with
+          | EPanic => False | EOk _ s' => P H s' | _ => True end.
+        Proof.
+          intros HP Hline Horig Hc. unfold circular_branch.
+          assert (Hexit : forall c' : cmd, match (edo _ <- changes_end; eret (Some c')) s with EPanic => False | EOk _ s' => P H s' | _ => True end)
+            by (intros c'; apply exit_rp; exact HP).
+          destruct c; try apply Hexit; try (apply beep_rec; assumption).
+          (* Abort *)
+          assert (HS : SInv c0 s) by (split; assumption). cbn [fst snd].
+          destruct (Nat.ltb i (length cands)) eqn:Ei.
+          + rewrite ebind_assoc. apply (abort_ok c0 t0 p0 Hv0 Hbd0 s HS).
+          + apply Nat.ltb_ge in Ei. specialize (Horig Ei).
+            pose proof HS as [[[HJ HN] Hh] [es Hes]]. pose proof HJ as [Hw [Hi [Hk [Hsv Hg]]]].
+            unfold ebind, eget, set_changes, eret.
+            assert (Htr : cs_truncate (e_changes s) (snd (cs_begin c0)) = c0).
+            { rewrite Hes. pose proof (abort_is_noop U (useg U) c0 es) as Ha. destruct (cs_begin c0) as [c1 mk]. exact Ha. }
+            rewrite Htr. split; [split|exact Hh]; [|exact HN].
+            split; [exact Hw|]. split; [unfold I; cbn; rewrite Horig; exact Hv0|]. split; [exact Hk|split; [exact Hsv|exact Hg]].
+        Qed.
+      End CBranch.
+
+      Theorem complete_circular_lp fuel : forall i,
+        lp (complete_circular U cfg fuel start cands (t0, p0) (snd (cs_begin c0)) i).
+      Proof.
+        induction fuel as [|f IH]; intros i; cbn [complete_circular]; [intros s _; exact Logic.I|].
+        intros s HL. unfold ebind at 1.
+        pose proof (show_candidate_ok i s HL) as Hsc.
+        destruct (show_candidate U start cands (t0, p0) i s) as [u s1| | |]; auto.
+        destruct Hsc as [[HS1 Hline1] Horig1]. pose proof HS1 as [HP1 [es1 Hes1]].
+        unfold ebind at 1.
+        pose proof (q5_refresh_line U cfg s1) as Hq. destruct (refresh_line U cfg s1) as [u2 s2| | |] eqn:E2; auto.
+        destruct Hq as [[L2 [C2 [K2 S2]]] N2].
+        assert (HP2 : P H s2).
+        { pose proof (rp_of_kq H _ (kq_of_q5 cfg _ (q5_refresh_line U cfg)) (kh_refresh_line U cfg) s1 HP1) as Hx.
+          rewrite E2 in Hx. exact Hx. }
+        unfold ebind at 1.
+        pose proof (next_cmd_facts f true s2 HP2) as Hn.
+        destruct (next_cmd U cfg f true s2) as [c s3| | |]; auto. destruct Hn as [HP3 [L3 C3]].
+        apply (circular_branch_ok (fun i' => complete_circular U cfg f start cands (t0, p0) (snd (cs_begin c0)) i') IH i c s3 HP3).
+        - rewrite L3, L2. exact Hline1.
+        - intros Hx. rewrite L3, L2. apply Horig1. exact Hx.
+        - destruct c; try exact Logic.I; exists es1; rewrite C3, C2; exact Hes1.
+      Qed.
+    End Circular.
+
+    (* the completer's contract: the span it asks to replace starts on a character boundary at or before the cursor *)
+    Hypothesis completer_ok : forall text p, bd text p ->
+      bd text (fst (c_complete cfg text p)) /\ fst (c_complete cfg text p) <= p.
+
+    Lemma rp_wait_yn fuel : forall c, rp H (wait_yn U cfg fuel c).
+    Proof.
+      induction fuel as [|f IH]; intros c; cbn [wait_yn]; [intros s _; exact Logic.I|].
+      assert (Hn : rp H (edo c' <- next_cmd U cfg f false; wait_yn U cfg f c')).
+      { apply rp_bind; [apply rp_of_kq; [apply kq_next_cmd|apply kh_next_cmd]|]. intros c'. apply IH. }
+      destruct c; try exact Hn; try apply rp_ret.
+      - destruct m; try exact Hn. destruct n as [|[|n]]; try exact Hn. apply rp_ret.
+      - destruct n as [|[|n]]; try exact Hn.
+        repeat match goal with |- rp H (match ?x with _ => _ end) => destruct x; try exact Hn; try apply rp_ret end.
+    Qed.
+
+    Lemma q5_rows (row_text : nat -> str) : forall k row,
+      quiet5 ((fix rows (k : nat) (row : nat) : E unit :=
+                 match k with 0 => eret tt | S k' => write [10%N] ;;; write (row_text row) ;;; rows k' (S row) end) k row).
+    Proof. induction k as [|k IHk]; intros row; [apply q5_ret|]. q5_auto. apply IHk. Qed.
+
+    Lemma rp_page cs : rp H (page_completions_simple U cfg cs).
+    Proof.
+      apply rp_of_kq; [|apply kh_page].
+      apply kq_of_q5. unfold page_completions_simple. cbv zeta.
+      apply quiet5_bind; [apply q5_rows|]. intros _. q5_auto. apply q5_refresh_line.
+    Qed.
+
+    Theorem complete_rp_emacs f : rp H (complete_line U cfg f).
+    Proof.
+      intros s HP. unfold complete_line. unfold ebind at 1. cbn [eget].
+      pose proof HP as [[HJ HN] Hh]. pose proof HJ as [Hw [Hi [Hk [Hsv Hg]]]].
+      destruct (completer_ok (buf (e_line s)) (pos (e_line s)) Hw) as [Hbs Hle].
+      destruct (c_complete cfg (buf (e_line s)) (pos (e_line s))) as [start cands]. cbn [fst] in Hbs, Hle.
+      destruct cands as [|cd cds].
+      { assert (Hr : rp H (beep ;;; eret (@None cmd))).
+        { apply rp_bind; [apply rp_of_kq; [apply kq_of_q5, q5_beep|unfold beep; kh_auto]|]. intros _. apply rp_ret. }
+        apply Hr. exact HP. }
+      destruct (c_completion cfg).
+      - (* circular *)
+        unfold ebind at 1. unfold changes_begin. unfold ebind at 1. cbn [eget].
+        destruct (cs_begin (e_changes s)) as [c1 mk] eqn:Eb. cbn [ebind set_changes eret].
+        replace mk with (snd (cs_begin (e_changes s))) by (rewrite Eb; reflexivity).
+        apply (complete_circular_lp (e_changes s) (buf (e_line s)) (pos (e_line s)) start (cd :: cds) Hi Hw (conj Hbs Hle) f 0).
+        split; [split|cbn; split; assumption].
+        + split; [split|exact Hh]; [|exact HN].
+          split; [exact Hw|]. split; [|split; [exact Hk|split; [exact Hsv|exact Hg]]].
+          unfold I. cbn [e_changes e_line]. replace c1 with (fst (cs_begin (e_changes s))) by (rewrite Eb; reflexivity).
+          apply valid_begin. exact Hi.
+        + exists []. unfold cs_notify_all. cbn [fold_left e_changes]. rewrite Eb. reflexivity.
+      - (* list *)
+        (* the common prefix replaces the span the completer named: the state is still the one it looked at *)
+        assert (Hstep1 : match (match lcp_all (cd :: cds) with
+                                | Some lcp =>
+                                  if Nat.ltb (pos (e_line s) - start) (blen lcp) || Nat.eqb (length (cd :: cds)) 1
+                                  then completer_update U start lcp ;;; refresh_line U cfg else eret tt
+                                | None => eret tt
+                                end) s with EPanic => False | EOk _ s' => P H s' | _ => True end).
+        { destruct (lcp_all (cd :: cds)) as [lcp|]; [|exact HP].
+          match goal with |- match (if ?c then _ else _) s with _ => _ end => destruct c end; [|exact HP].
+          unfold ebind at 1. unfold completer_update. unfold ebind at 1. cbn [eget].
+          destruct (replace_total start (pos (e_line s)) lcp (e_line s) (conj Hbs (conj Hw Hle))) as [a [b' [ev [Hrep Hw']]]]. destruct a.
+          destruct (lb_changes_spec (replace start (pos (e_line s)) lcp) s tt b' ev Hrep) as [s1 [H1 [L [C [K [S [Hh1 N1]]]]]]].
+          rewrite H1.
+          pose proof (np_lb_changes_at U (replace start (pos (e_line s)) lcp) s HJ
+                        (ex_intro _ tt (ex_intro _ _ (ex_intro _ _ (conj Hrep Hw')))) (good_replace _ _ _) (kg_replace _ _ _)) as Hn.
+          rewrite H1 in Hn. cbn in Hn.
+          assert (HP1 : P H s1) by (split; [split; [exact Hn|unfold Nv; rewrite N1; exact HN]|rewrite Hh1; exact Hh]).
+          apply (rp_of_kq H _ (kq_of_q5 cfg _ (q5_refresh_line U cfg)) (kh_refresh_line U cfg) s1 HP1). }
+        unfold ebind at 1.
+        match goal with |- match match ?x with _ => _ end with _ => _ end => destruct x as [u s1| | |] end; auto.
+        revert s1 Hstep1. clear.
+        match goal with |- forall s1, P H s1 -> match ?m s1 with _ => _ end => change (rp H m) end.
+        destruct (Nat.ltb 1 (length (cd :: cds))); [|apply rp_ret].
+        apply rp_bind; [apply rp_of_kq; [apply kq_of_q5, q5_beep|unfold beep; kh_auto]|]. intros _.
+        apply rp_bind; [apply rp_of_kq; [apply kq_next_cmd|apply kh_next_cmd]|]. intros c.
+        destruct c; try apply rp_ret.
+        (* Tab again: the candidates are listed; the cursor goes to the end and back *)
+        intros s1 HP1. unfold ebind at 1. cbn [eget]. cbv zeta.
+        pose proof HP1 as [[HJ1 HN1] Hh1]. pose proof HJ1 as [Hw1 _].
+        assert (Hme : rp H (moved U cfg move_end)).
+        { apply rp_of_np; [apply np_moved; [apply move_end_total|apply pure_move_end|apply kg_move_end]| |].
+          - unfold moved, lb_quiet, move_cursor. kna_auto.
+          - unfold moved, lb_quiet, move_cursor. kh_auto. }
+        unfold ebind at 1. pose proof (Hme s1 HP1) as Hm.
+        destruct (moved U cfg move_end s1) as [u s2| | |] eqn:E2; auto.
+        pose proof (kb_moved U cfg move_end pure_move_end _ _ _ E2) as Hb2.
+        unfold ebind at 1.
+        assert (Hsp : match lb_quiet (set_pos (pos (e_line s1))) s2 with EPanic => False | EOk _ s' => P H s' | _ => True end).
+        { pose proof Hm as [[HJ2 HN2] Hh2].
+          assert (Hbd : bd (buf (e_line s2)) (pos (e_line s1))) by (rewrite Hb2; exact Hw1).
+          destruct (set_pos_total (pos (e_line s1)) (e_line s2) Hbd) as [a [b' [ev [Hsp Hw']]]].
+          assert (Hpure : pure (set_pos (pos (e_line s1)))).
+          { unfold set_pos. apply pure_bind; [apply pure_get|]. intros b0. destruct (Nat.ltb (lb_len b0) (pos (e_line s1))); [apply pure_fail|apply pure_put]. }
+          pose proof (np_lb_quiet_at (set_pos (pos (e_line s1))) s2 HJ2 (ex_intro _ a (ex_intro _ b' (ex_intro _ ev (conj Hsp Hw')))) Hpure (kg_set_pos _)) as Hn.
+          unfold lb_quiet in *. unfold ebind at 1 in Hn. unfold ebind at 1. cbn [eget] in *. rewrite Hsp in *.
+          cbn [ebind set_line upd_line eret] in *. unfold eret in *. cbn in Hn |- *.
+          split; [split; [exact Hn|exact HN2]|exact Hh2]. }
+        destruct (lb_quiet (set_pos (pos (e_line s1))) s2) as [u3 s3| | |]; auto.
+        revert s3 Hsp. clear.
+        match goal with |- forall s3, P H s3 -> match ?m s3 with _ => _ end => change (rp H m) end.
+        destruct (Nat.ltb (c_prompt_limit cfg) (length (cd :: cds))); [|apply rp_page].
+        apply rp_bind; [apply rp_of_kq; [apply kq_of_q5, q5_write|intros ? ? ? Hx; inversion Hx; reflexivity]|]. intros _.
+        apply rp_get_bind. intros s2 _. cbv zeta.
+        apply rp_bind; [apply rp_of_kq; [apply kq_of_q5, q5_set_layout|intros ? ? ? Hx; inversion Hx; reflexivity]|]. intros _.
+        apply rp_bind; [apply rp_wait_yn|]. intros c2.
+        assert (Hno : rp H (refresh_line U cfg ;;; eret (@None cmd))).
+        { apply rp_bind; [apply rp_of_kq; [apply kq_of_q5, q5_refresh_line|apply kh_refresh_line]|]. intros _. apply rp_ret. }
+        destruct c2; try exact Hno.
+        destruct n as [|[|n]]; try exact Hno.
+        repeat match goal with |- rp H (match ?x with _ => _ end) => destruct x; try exact Hno; try apply rp_page end.
+    Qed.
+
+    (* A WHOLE READ IN EMACS MODE, any history, with or without a helper *)
     Theorem read_never_panics_emacs prompt initial kr inp :
       kr_inv kr -> fst (read_line U cfg prompt initial H kr inp) <> OPanic.
-    Proof. apply read_rp. exact search_rp_emacs. Qed.
+    Proof. apply read_rp; [exact search_rp_emacs|intros _; exact complete_rp_emacs]. Qed.
   End EmacsSearch.
 End MainLoop.
+
+(* the contract is satisfiable: the scripted completer of the correspondence check keeps it *)
+Lemma script_complete_ok cands text p :
+  bd text p -> bd text (fst (script_complete cands text p)) /\ fst (script_complete cands text p) <= p.
+Proof.
+  intros [l [r [-> ->]]]. unfold script_complete. rewrite bsplit_app. cbn [fst].
+  destruct (rfind_char 32%N l) as [k|] eqn:E; [|split; [apply bd_0|lia]].
+  destruct (rfind_char_spec _ _ _ E) as [a [b [-> ->]]].
+  replace (blen a + 1) with (blen (a ++ [32%N])) by (rewrite blen_app; reflexivity).
+  split.
+  - replace ((a ++ 32%N :: b) ++ r) with ((a ++ [32%N]) ++ b ++ r) by (rewrite <- !app_assoc; reflexivity). apply bd_mid.
+  - replace (a ++ 32%N :: b) with ((a ++ [32%N]) ++ b) by (rewrite <- app_assoc; reflexivity). rewrite (blen_app (a ++ [32%N]) b). lia.
+Qed.
